@@ -1,7 +1,7 @@
 CONSTANTS
   Bugs = {}
   MaxC = 2
-  MaxOps = 8
+  MaxOps = 7
   Fams = {"unix"}
   MaxData = 2
   MaxArms = 1
